@@ -96,7 +96,7 @@ def generate(seed, tier):
     rng = core.stream(seed, "gen")
     swarm = core.stream(seed, "swarm")
     if swarm.random() < 0.25:
-        alphabet = swarm.choice([["a", "b", ""], ["a b", " a", "x\ty", "l1\nl2", "", "l1\r\nl2", "\r"], ["<&>", "ü€", "=1+1", "'q"], ["1", "2.50", "TRUE", "01067", "00", "\u0663\u0664", "007"], ["x" * 32767, "x" * 32766, "ab"]])
+        alphabet = swarm.choice([["a", "b", ""], ["a b", " a", "x\ty", "l1\nl2", "", "l1\r\nl2", "\r"], ["<&>", "ü€", "=1+1", "'q", "<r>x</r>", "<t>y</t>"], ["1", "2.50", "TRUE", "01067", "00", "\u0663\u0664", "007"], ["x" * 32767, "x" * 32766, "ab"]])
         table = [[rng.choice(alphabet) for _ in range(rng.randint(1, 5))] for _ in range(rng.randint(0, 5))]
         # how the rows reach the writer: one by one, as one batch, or as any mix of single rows and batches
         batches = None
@@ -197,7 +197,14 @@ def execute(scenario):
         if status == "exc":
             raise core.Violation("written-workbook-unreadable", ["class=" + type(value).__name__], repr(value))
         if value != wanted:
-            raise core.Violation("writer-round-trip-differs", [], "written %r (as a sheet: %r), read back %r" % (table, wanted, value))
+            culprits = []
+            if any(cell.startswith("<r>") and cell.endswith("</r>") for row in table for cell in row):
+                # xlsxwriter takes a string of this shape for ready-made rich text XML and stores it unescaped
+                culprits.append("cell-looks-like-rich-text-xml")
+            raise core.Violation("writer-round-trip-differs", culprits, "written %r (as a sheet: %r), read back %r" % (
+                [[cell if len(cell) < 200 else cell[:20] + "...<%d characters>" % len(cell) for cell in row] for row in table],
+                "see above" if max([len(cell) for row in table for cell in row] or [0]) >= 200 else wanted,
+                [[cell if len(cell) < 200 else cell[:20] + "...<%d characters>" % len(cell) for cell in row] for row in value]))
         return result
 
     sheets = scenario["sheets"]
